@@ -117,6 +117,7 @@ type Contracts struct {
 	Specs   map[string]*SpecFunc
 	Axioms  []*Axiom
 	ChanInvs []*ChanInv
+	TypeInvs []*ChanInv // typeinv <named type>: expr(v), assumed of every value of the type seen outside its package
 	Attrs    map[string]bool // ghost object attributes: name -> false for every object on entry
 	Assumes []string // textual record of every 'trusted'/'assume'
 }
@@ -130,7 +131,7 @@ var tagRe = regexp.MustCompile(`^\[([A-Za-z0-9_, ]+)(?::([A-Za-z0-9_\-\.]+))?\]\
 var keywords = map[string]bool{
 	"func": true, "props": true, "requires": true, "ensures": true, "modifies": true,
 	"loop": true, "invariant": true, "decreases": true, "inline": true, "trusted": true,
-	"pure": true, "unroll": true, "spec": true, "package": true, "noterm": true, "assert": true, "axiom": true, "lemma": true, "callsite": true, "ghost": true, "onassign": true, "oncall": true, "aftercall": true, "closure": true, "chaninv": true, "assumecall": true, "markcall": true, "dyncall": true, "attr": true,
+	"pure": true, "unroll": true, "spec": true, "package": true, "noterm": true, "assert": true, "axiom": true, "lemma": true, "callsite": true, "ghost": true, "onassign": true, "oncall": true, "aftercall": true, "closure": true, "chaninv": true, "typeinv": true, "assumecall": true, "markcall": true, "dyncall": true, "attr": true,
 }
 
 // LoadFile parses a contract file. pkgPath is the default package path
@@ -239,6 +240,19 @@ func (cs *Contracts) LoadFile(path string, pkgPath string, external bool) error 
 				cs.Attrs = map[string]bool{}
 			}
 			cs.Attrs[f[0]] = len(f) > 1 && f[1] == "initially-false"
+			cur, curLoop = nil, nil
+		case "typeinv":
+			// typeinv <named type of this package>: <expr over v>  -- representation invariant of a type whose
+			// fields are unexported: assumed of every value of the type met outside the package
+			ci := strings.Index(rest, ":")
+			if ci < 0 {
+				return errf("typeinv needs '<type>: <expr>'")
+			}
+			e, err := ParseExpr(strings.TrimSpace(rest[ci+1:]))
+			if err != nil {
+				return errf("%v", err)
+			}
+			cs.TypeInvs = append(cs.TypeInvs, &ChanInv{PkgPath: pkgPath, Elem: strings.TrimSpace(rest[:ci]), Text: rest, E: e})
 			cur, curLoop = nil, nil
 		case "chaninv":
 			// chaninv <elem type>: <expr over v>  -- every value sent on a channel of this element
